@@ -90,6 +90,10 @@ func FixedZone(name string, offset int) *Location    { return time.FixedZone(nam
 // Now reads the explorer's clock.
 func Now() Time { return vrt.Now() }
 
+// After and Sleep: timers are threads of the environment (see vrt.After).
+func After(d Duration) *vrt.Chan[Time] { return vrt.After(d) }
+func Sleep(d Duration)                 { vrt.Sleep(d) }
+
 // Since and Until are Now-based.
 func Since(t Time) Duration { return Now().Sub(t) }
 func Until(t Time) Duration { return t.Sub(Now()) }
